@@ -348,6 +348,9 @@ for _k, _v in ADDENDUM6.items():
 ADDENDUM7 = {
     'C05': " ADDED (wave 7): Model/LowerOrder.v, Proofs/LowerOrderProofs.v -- BSplineBasis.raise_order/lower_order as called (amount < 0 -> ValueError, amount 0 -> clone, constructor call): for every sorted, tolerance-separated knot vector raise_order(a) keeps the distinct knots, adds a to every multiplicity and keeps continuity() at every knot; lower_order(a) sets every multiplicity to max(m - a, 1); lower_order(a) after raise_order(a) is the identity on clamped non-periodic bases of order >= 2; the error branches (order - a < 2, unclamped, periodic: NameError) are theorems, the periodic round trip is a refuted statement (recorded finding).",
     'C15': " ADDED (wave 7): Model/CoonsLib.v, Proofs/CoonsLibProofs.v -- the control net surface_factory.coons_patch really computes (s1 + s2 - s3 on the refined nets, Greville abscissae of the reparametrised bases) equals the abstract Coons net entry by entry for all sizes; its four boundary rows/columns are the four input nets exactly when the corners agree (gap formula and refutation otherwise); the surface object evaluates to the four curves on its edges for every parameter; homogeneous weights blend the same way (interior weights may become negative: counterexample theorem). Tied to the code on every run by kernel evaluation (harness/vmtie.py: coons_patch_obj on Q under vm_compute vs coons_patch on the same four curves).",
+    'C13': " ADDED (wave 7): Model/Ellipse.v, Proofs/EllipseProofs.v -- curve_factory.ellipse (scale, in-plane rotation, placement) and n_gon transcribed: the quadric equation r2^2 X^2 + r1^2 Y^2 = r1^2 r2^2 W^2 in the placed frame on every span blend for both circle types, weights copied, plane orthogonal to the normal; n_gon: order 2, periodic, vertices at distance r, every edge is the segment between consecutive vertices, closure; refuted: a centre within allclose of 0 is ignored, ellipse accepts non-positive radii.",
+    'C04': " ADDED (wave 7): Model/Refinement.v, Proofs/RefinementProofs.v -- geometric_refine, SplineObject.refine and edge/center_refine: closed form of the inserted knots, strictly inside and increasing, counts, same_geometry end to end through the insertion theorem; refuted: knots are spread over the whole direction (not the first span), alpha < 0 leaves the domain.",
+    'C07': " ADDED (wave 7): Model/Subdivide.v, Proofs/SubdivideProofs.v -- utils.refinement.subdivide for curves and surfaces: pieces in order, domains tile at existing knots, every piece evaluates to the original; refuted: the piece count is n+1 only below the number of distinct knots, break values are knots not equidistant values, periodic directions fail for n = 0/1.",
     'C17': " ADDED (session 5): Model/Matches.v is now tied to the code on every run (harness/vmtie.py: basis_matches_res on Q under vm_compute vs BSplineBasis.matches incl. the ValueError branch, pairs built as same/affine/moved/relative/reversed/other order/length/periodicity under several knot tolerances).",
     'C14': " ADDED (session 5): Model/Rebuild.v is now tied to the code on every run (harness/vmtie.py: curve_rebuild on Q under vm_compute vs Curve.rebuild: orders, knots, control net, dimension, rational flag).",
     'C16': " ADDED (session 5): Model/Frenet.v is now tied to the code on every run (harness/vmtie.py: binormal()/normal() of the implementation are unit vectors and positive multiples of binormal_dir/normal_dir evaluated on Q under vm_compute from x', x''; cubic, polyline, axis-parallel, tiny and long-domain curves).",
